@@ -17,6 +17,8 @@ var (
 	counters = map[string]int{}
 	// Failed collects failed assertion labels during native replay.
 	Failed []string
+	// Witnessed collects witness labels whose condition held during native replay.
+	Witnessed []string
 	// Unassumed is set when an Assume evaluated to false during native replay.
 	Unassumed bool
 )
@@ -51,7 +53,7 @@ func loadModel() {
 }
 
 // Reset clears native replay state (between replays in one process).
-func Reset() { model = nil; counters = map[string]int{}; Failed = nil; Unassumed = false }
+func Reset() { model = nil; counters = map[string]int{}; Failed = nil; Witnessed = nil; Unassumed = false }
 
 func next(label string) (string, bool) {
 	loadModel()
@@ -100,6 +102,7 @@ func Choice(label string, n int) int {
 func Assume(c bool) {
 	if !c {
 		Unassumed = true
+		panic(AssumeFailed{})
 	}
 }
 
@@ -114,7 +117,11 @@ func Assert(c bool, label string) {
 func Reach(label string) {}
 
 // Witness records that cond is satisfiable here (vacuity guard).
-func Witness(cond bool, label string) {}
+func Witness(cond bool, label string) {
+	if cond {
+		Witnessed = append(Witnessed, label)
+	}
+}
 
 // Note attaches a remark to the evidence.
 func Note(s string) {}
@@ -160,3 +167,27 @@ func IteInt(c bool, a, b int) int {
 	}
 	return b
 }
+
+// Bound returns the tier's bound (quick or thorough). Native replay: the larger one, so any
+// model found under either tier fits.
+func Bound(quick, thorough int) int { return thorough }
+
+// Thorough reports whether the thorough tier is running (native: true).
+func Thorough() bool { return true }
+
+// KnownRegion declares, for the assertions that follow on this path, the input region of a
+// recorded known finding (see /verif/known_findings.json). A failing assertion is reported as
+// a violation only if it can also fail outside every active known region.
+func KnownRegion(id string, cond bool) {}
+
+// ClearKnownRegions forgets the regions declared so far on this path.
+func ClearKnownRegions() {}
+
+// ReplayInInterpreter marks the harness as not natively replayable (it depends on values the
+// native build cannot pin, e.g. the wall clock); counterexamples are re-executed in the
+// interpreter with all inputs pinned to the model instead.
+func ReplayInInterpreter() {}
+
+// AssumeFailed is the panic value used by the native Assume to stop a replay whose model does
+// not satisfy the harness assumptions.
+type AssumeFailed struct{}
